@@ -27,6 +27,10 @@ Definition opS (n v : N) : op := SetParam (N.to_nat n) (Z.of_N v).
 Definition opC (n : N) (input : string) (src : N) : op := Connect (N.to_nat n) input (N.to_nat src).
 Definition opD (n : N) (input : string) : op := Disconnect (N.to_nat n) input.
 Definition opR (n : N) : op := Read (N.to_nat n).
+(* an update message the parameter rejects (ApplyMessage returns the decoding error): the model has no such
+   operation — parameters reject everything but a successful set — so it is rendered as an operation every
+   parameter rejects; the state must not change and Version() must not move *)
+Definition opX (n : N) : op := Disconnect (N.to_nat n) ""%string.
 Definition mkrow (v : N) (s : bool) (e : N) : row := (N.to_nat v, s, N.to_nat e).
 Definition chg (n v : N) (s : bool) (e : N) : nat * row := (N.to_nat n, mkrow v s e).
 Definition dP (v : N) : decl := DParam (Z.of_N v).
